@@ -28,6 +28,7 @@ pub fn mk_lifecycle(p: &Value) -> Arc<Mk> {
     let kind = p["kind"].as_str().unwrap().to_string();
     let ops: Vec<String> = p["ops"].as_array().unwrap().iter().map(|v| v.as_str().unwrap().to_string()).collect();
     let cycles = p["cycles"].as_u64().unwrap_or(1) as usize;
+    let unnameable_late = p["unnameable_late"].as_bool().unwrap_or(false);
     Arc::new(move || {
         let kind = kind.clone();
         let ops = ops.clone();
@@ -108,10 +109,14 @@ pub fn mk_lifecycle(p: &Value) -> Arc<Mk> {
                 drop(survivor);
                 if kind == "fs" {
                     // a later filesystem event is what lets the watcher notice the reloader is gone
-                    let p = tmp_root().join("k.txt");
+                    // the late activity is either on an asset file or on a path that maps to no id at all
+                    let p = if unnameable_late { tmp_root().join(".cache.d").join("state.tmp.1") } else { tmp_root().join("k.txt") };
                     notify::stub_inject(cyc, notify::Event { kind: notify::EventKind::Modify(notify::ModifyKind::Data), paths: vec![p] });
                     ds::quiesce();
                     ds::log(format!("after-late-event {name} {}", state_tag(&name)));
+                    // ... and so must an event for a path that maps to no asset id (a dotted name):
+                    // the watcher of a dropped cache has to notice that nobody listens any more
+                                        ds::log(format!("watcher {name} alive-after-late-event={}", notify::stub_alive(cyc)));
                     ds::log(format!("late-event {name} woke={}", ds::thread_steps(&name) - steps));
                 }
                 drop(ext);
@@ -124,6 +129,9 @@ pub fn judge_lifecycle(r: &ds::RunResult) -> Option<(String, String)> {
     for l in &r.log {
         if l.starts_with("idle ") && !(l.contains("blocked:SelectReady") || l.ends_with("finished")) {
             return Some(("busy-when-idle".into(), format!("reloader is not blocked while nothing changes: {l}")));
+        }
+        if l.starts_with("watcher ") && l.ends_with("alive-after-late-event=true") {
+            return Some(("watcher-not-released".into(), format!("the filesystem watcher of a dropped cache survives later activity in the directory (its thread and inotify instance accumulate): {l}")));
         }
         if l.starts_with("late-event ") && !l.ends_with("woke=0") {
             return Some(("woken-after-drop".into(), format!("the reloader of a dropped cache still reacts to events (it does not sleep for good): {l}")));
@@ -167,6 +175,9 @@ pub fn lifecycle(args: &Args) -> SubResult {
                     continue;
                 }
                 cases.push(json!({"kind": kind, "ops": s, "cycles": cycles}));
+                if kind == "fs" {
+                    cases.push(json!({"kind": kind, "ops": s, "cycles": cycles, "unnameable_late": true}));
+                }
             }
         }
     }
